@@ -13,6 +13,51 @@ def expected_group(truth, opts_rg, read_name, bam_label):
     return None
 
 
+def label_map(argv):
+    """file base name -> label the documentation assigns (--labels, '<path>:<label>' in a list file, 'labels' in YAML;
+    default: base name without extension); parsed here independently from the inputs named on the command line"""
+    import json
+    labels = {}
+
+    def base(p):
+        return os.path.splitext(os.path.basename(p))[0]
+
+    def after(flag):
+        out = []
+        if flag in argv:
+            for a in argv[argv.index(flag) + 1:]:
+                if a.startswith("--") or (a.startswith("-") and len(a) == 2):
+                    break
+                out.append(a)
+        return out
+    try:
+        if "--bam" in argv:
+            bams, labs = after("--bam"), after("--labels")
+            for k, b in enumerate(bams):
+                labels[base(b)] = labs[k] if len(labs) == len(bams) else base(b)
+        elif "--bam_list" in argv:
+            with open(T.opt(argv, "--bam_list")) as f:
+                for l in f:
+                    l = l.strip()
+                    if not l or l.startswith("#"):
+                        continue
+                    vals = l.split(":")
+                    labels[base(vals[0].split()[0])] = vals[-1] if len(vals) > 1 else base(vals[0].split()[0])
+        elif "--yaml" in argv:
+            with open(T.opt(argv, "--yaml")) as f:
+                doc = json.load(f)
+            for e in doc:
+                fl = e.get("long read files")
+                if not fl:
+                    continue
+                labs = e.get("labels") or []
+                for k, b in enumerate(fl):
+                    labels[base(b)] = labs[k] if len(labs) == len(fl) else base(b)
+    except (OSError, ValueError):
+        pass
+    return labels
+
+
 def check(files, truth, run, rundir):
     problems = []
     argv = run.get("orig_argv") or run["argv"]
@@ -28,6 +73,7 @@ def check(files, truth, run, rundir):
     # ground truth: read name -> group
     name2group = {}
     mode = rg.split(":")[0]
+    labels = label_map(argv) if mode == "file_name" else {}
     for ei, ex in enumerate(truth["exps"]):
         for fi, members in enumerate(ex["files"]):
             label = "%s.f%d" % (ex["name"], fi)
@@ -35,7 +81,7 @@ def check(files, truth, run, rundir):
                 r = truth["reads"][i]
                 nm = workload.read_name(r, spec)
                 if mode == "file_name":
-                    g = label
+                    g = labels.get(label, label)
                 elif mode == "tag":
                     g = r["group"] if r["group"] is not None else "NA"
                 elif mode == "read_id":
